@@ -168,7 +168,11 @@ func LowerASCII(s string) string {
 func RepoStrings(dirs ...string) []string {
 	set := map[string]struct{}{}
 	for _, d := range dirs {
-		files, _ := filepath.Glob(filepath.Join("/repo", d, "*_test.go"))
+		repo := os.Getenv("VERIF_REPO")
+		if repo == "" {
+			repo = "/repo"
+		}
+		files, _ := filepath.Glob(filepath.Join(repo, d, "*_test.go"))
 		for _, f := range files {
 			src, err := os.ReadFile(f)
 			if err != nil {
